@@ -40,7 +40,7 @@ GEN_CONFIGS = {
 }
 RANDOM_N = {"quick": 8000, "thorough": 80000}
 E2E_N = {"quick": 1500, "thorough": 15000}
-TLC_TIMEOUT = {"quick": 600, "thorough": 3000}
+TLC_TIMEOUT = {"quick": 1500, "thorough": 6000}
 
 
 def _tb_text(tb):
@@ -178,7 +178,7 @@ def run(tier):
         "where a token checked because of a blank-ending value is replaced by an empty value, both readings of "
         "'the next token' are allowed",
         "global aliases are injected through the Glossary API (the alias built-in cannot define them)",
-        "TLC 1.8.0 and the JSON community module are trusted",
+        "TLC (tla2tools) and the JSON community module are trusted",
     ]
 
     # ---- calibration of the oracle against the manual's and alias-p.sh's worked examples (DESIGN 4.4) ----
